@@ -156,6 +156,17 @@ func (h *hist) relagWake() {
 			}
 			h.pull(a, others[h.rng.Intn(len(others))], h.rng.Intn(3), false)
 			h.actions["relag-truncated-first-sync"]++
+			if ev, err := a.Store.GetEvent(a.Core.Head()); err == nil && ev.OtherParent() == "" && ev.Index() == 0 {
+				h.actions["relag-first-event-without-parents"]++
+				lb, hasLB := a.Hg.VerifRoundLowerBound()
+				if r := ev.GetRound(); r != nil && hasLB && *r <= lb {
+					r := *r
+					h.actions["relag-first-event-at-or-below-lower-bound"]++
+					if _, err := a.Store.GetRound(r); err != nil {
+						h.actions["relag-first-event-in-a-round-missing-from-the-store"]++
+					}
+				}
+			}
 		}
 	}
 }
